@@ -187,11 +187,12 @@ def interactLoop (cfg : Cfg) (dev : σ → Bytes → σ × Bytes) (complete : Li
     | none => none
     | some (acc', s', done) => if done then some (acc', s') else interactLoop cfg dev complete evs acc' s'
 
-/-- `send_inputs_interact` (577-685) -/
+/-- `send_inputs_interact` (577-690); the accumulated buffer is `lstrip()`ped before processing
+    (fix 4c94c83: blanks left unread by the previous operation are not part of the interaction) -/
 def sendInputsInteract (cfg : Cfg) (dev : σ → Bytes → σ × Bytes) (events : List (Bytes × Bytes × Bool))
     (complete : List Bytes) (s : Wire × σ) : Option ((Bytes × Bytes) × (Wire × σ)) :=
   match interactLoop cfg dev complete events [] s with
   | none => none
-  | some (buf, s') => some ((buf, processOutput cfg buf false), s')
+  | some (buf, s') => some ((buf, processOutput cfg (buf.dropWhile isWs) false), s')
 
 end Scrapli.Chan
